@@ -467,16 +467,29 @@ impl<'a> FamVisitor for RVisit<'a> {
             let at = format!("read #{i}");
             obs.borrow_mut().event(ev::ISSUE, i as u64);
             let calls_before = core.borrow().calls;
+            // the allocation counter is armed around the library call only: rendering the result for comparison is the
+            // harness's own business
+            let mut unit = ();
             crate::alloc::arm();
-            let r = if s.r_use_ctx { rclass(reader.read_with::<(), F::Of<'_>>(&mut ())) } else { rclass(reader.read::<F::Of<'_>>()) };
+            let raw = if s.r_use_ctx { reader.read_with::<(), F::Of<'_>>(&mut unit) } else { reader.read::<F::Of<'_>>() };
             let stats = crate::alloc::disarm();
+            let r = rclass(raw);
             let c = core.borrow();
             if c.cap_hit {
                 fail!("progress", "{at}: source call cap ({budget}) exceeded");
             }
             obs.borrow_mut().event(ev::RESULT, 0);
             // allocation bound: never driven by the declared length beyond 2 x max_len
-            let decode_slop = if i < expected.len() && matches!(expected[i], Exp::Value(_) | Exp::DecodeErr) { 64 * payload_lens[i] + 4096 } else { 4096 };
+            // what decoding itself may allocate on top of the frame buffer: nothing to speak of for the families that borrow
+            // from the buffer or are scalars (an error value at most), a generous multiple of the payload for owning ones
+            let lean = matches!(F::TY, Ty::U64 | Ty::Str | Ty::ByteSliceRef | Ty::Unit | Ty::Nothing | Ty::Tuple3 | Ty::OptStr | Ty::SelfDesc | Ty::Embedded);
+            let decode_slop = if lean {
+                256
+            } else if i < expected.len() && matches!(expected[i], Exp::Value(_) | Exp::DecodeErr) {
+                64 * payload_lens[i] + 4096
+            } else {
+                4096
+            };
             if stats.max_request > base_bound + decode_slop {
                 fail!(
                     "r_alloc_bound",
@@ -571,8 +584,9 @@ impl<'a> FamVisitor for RVisit<'a> {
             reader.set_max_len(limit as u32);
             for k in 0..3 {
                 crate::alloc::arm();
-                let r = rclass(reader.read::<F::Of<'_>>());
+                let raw = reader.read::<F::Of<'_>>();
                 let stats = crate::alloc::disarm();
+                let r = rclass(raw);
                 if core.borrow().cap_hit {
                     break;
                 }
@@ -1007,7 +1021,7 @@ impl Property for P14 {
                     1 => items.push(WKind::Raw { declared: 0, body: vec![] }),
                     2 => {
                         // complete frame, truncated or extended CBOR inside
-                        let p = reference_encoding(&ValSpec { ty: family, size: size.min(300), seed: r.next_u64() }).unwrap_or_default();
+                        let p = reference_encoding(&ValSpec { ty: family, size: size.min(3000), seed: r.next_u64() }).unwrap_or_default();
                         let body = if r.chance(1, 2) && !p.is_empty() {
                             p[..r.below(p.len() as u64) as usize].to_vec()
                         } else {
